@@ -172,6 +172,55 @@ class RenameLocals(ast.NodeTransformer):
         return node
 
 
+class AugExpand(ast.NodeTransformer):
+    """x += e  ->  x = x + e  for plain names and numeric-looking operands (not for list accumulation: `lst += other` mutates in place)"""
+
+    def visit_AugAssign(self, node):
+        self.generic_visit(node)
+        if isinstance(node.target, ast.Name) and isinstance(node.op, (ast.Add, ast.Sub, ast.Mult)) and \
+                isinstance(node.value, (ast.Constant, ast.Name, ast.BinOp)) and not (isinstance(node.value, ast.Constant) and not isinstance(node.value.value, (int, float))):
+            # only where the right-hand side is visibly scalar: a constant, or arithmetic on names/constants without subscripts/calls
+            if all(isinstance(x, (ast.Constant, ast.Name, ast.BinOp, ast.operator, ast.expr_context, ast.UnaryOp, ast.unaryop)) for x in ast.walk(node.value)) \
+                    and isinstance(node.value, (ast.Constant, ast.BinOp)):
+                return ast.copy_location(ast.Assign(targets=[ast.Name(id=node.target.id, ctx=ast.Store())],
+                                                    value=ast.BinOp(left=ast.Name(id=node.target.id, ctx=ast.Load()), op=node.op, right=node.value)), node)
+        return node
+
+
+class InvertIfElse(ast.NodeTransformer):
+    """if c: A else: B  ->  if not c: B else: A   (only two-armed ifs whose else arm is not an elif chain)"""
+
+    def visit_If(self, node):
+        self.generic_visit(node)
+        if node.orelse and not (len(node.orelse) == 1 and isinstance(node.orelse[0], ast.If)):
+            t = node.test
+            if isinstance(t, ast.UnaryOp) and isinstance(t.op, ast.Not):
+                nt = t.operand
+            else:
+                nt = ast.UnaryOp(op=ast.Not(), operand=t)
+            node.test, node.body, node.orelse = nt, node.orelse, node.body
+        return node
+
+
+class MirrorCompare(ast.NodeTransformer):
+    """a < b -> b > a (single-operator order comparisons; evaluation order of side-effect-free operands only: names, attributes,
+    subscripts, constants, arithmetic, len()/abs() calls)"""
+    MIRROR = {ast.Lt: ast.Gt, ast.Gt: ast.Lt, ast.LtE: ast.GtE, ast.GtE: ast.LtE}
+
+    @staticmethod
+    def pure(e):
+        for x in ast.walk(e):
+            if isinstance(x, ast.Call) and not (isinstance(x.func, ast.Name) and x.func.id in ('len', 'abs', 'float', 'int')):
+                return False
+        return True
+
+    def visit_Compare(self, node):
+        self.generic_visit(node)
+        if len(node.ops) == 1 and type(node.ops[0]) in self.MIRROR and self.pure(node.left) and self.pure(node.comparators[0]):
+            return ast.copy_location(ast.Compare(left=node.comparators[0], ops=[self.MIRROR[type(node.ops[0])]()], comparators=[node.left]), node)
+        return node
+
+
 def benign_variants(repo):
     """{name: overlay}"""
     out = {}
@@ -187,6 +236,12 @@ def benign_variants(repo):
         k: ast.unparse(ast.fix_missing_locations(SwapCommutative().visit(ast.parse(v)))) + '\n' for k, v in srcs.items()}
     out['every local variable renamed (x -> x_rn)'] = {
         k: ast.unparse(ast.fix_missing_locations(RenameLocals().visit(ast.parse(v)))) + '\n' for k, v in srcs.items()}
+    out['x += c  ->  x = x + c (scalar counters)'] = {
+        k: ast.unparse(ast.fix_missing_locations(AugExpand().visit(ast.parse(v)))) + '\n' for k, v in srcs.items()}
+    out['if c: A else: B  ->  if not c: B else: A'] = {
+        k: ast.unparse(ast.fix_missing_locations(InvertIfElse().visit(ast.parse(v)))) + '\n' for k, v in srcs.items()}
+    out['a < b  ->  b > a (order comparisons mirrored)'] = {
+        k: ast.unparse(ast.fix_missing_locations(MirrorCompare().visit(ast.parse(v)))) + '\n' for k, v in srcs.items()}
     return out
 
 
